@@ -7,6 +7,12 @@ CLAIMED = {
  "C03": ("deterministic simulation: seeded arrival/fault plans + scheduler-placed ticks vs. reference receive-set model (version window)",
          "Seeded exploration: thousands of simulated runs of the real NACK generator (loss, duplication, reordering, late packets, jumps <2^15, wrap, reader errors, 1-3 SSRCs, all option settings) with every tick/arrival interleaving chosen by the simulator; each emitted NACK is expanded independently and compared for exact set equality with an unbounded-memory reference model at some version inside the window the writing goroutine could have observed.",
          "Trusted: pion/rtcp NACK pair marshalling types (pairs are expanded by the oracle itself), the overlay rewrite, the reference model. Sampling, not proof.", "DESIGN.md §5 C03"),
+ "C15": ("deterministic simulation: seeded concurrent writers under the simrt scheduler with -race, stalled downstream writers, conservation oracle over assigned numbers",
+         "Seeded exploration with the race detector on: 1-6 writer goroutines on 1-5 streams (negotiated or not, ids 1-14, one-/two-byte profiles, pre-existing extensions, callers reusing header objects, stalled downstream writers), every interleaving at atomic/yield points chosen by the simulator; at the end the multiset of assigned transport-wide numbers must be one consecutive run mod 2^16 (runs of >65536 packets included), every other header field and the payload must equal the caller's packet, non-negotiated streams untouched; any data race is a deterministic, replayable verdict.",
+         "Trusted: pion/rtp header (un)marshalling of the extension, the race detector, the overlay rewrite. Sampling, not proof.", "DESIGN.md §5 C15"),
+ "C18": ("deterministic simulation: faulty-link push orders x consumer operations on a simulated clock vs. executable reference buffer model (pointer identity), plus the interceptor read path; real-time watchdog for CPU loops",
+         "Seeded exploration: push orders derived from a sender stream through a lossy/duplicating/reordering link (incl. the 2^16 wrap) interleaved with Pop/PopAtSequence/PopAtTimestamp/Peek/PeekAtSequence/SetPlayoutHead/Clear for all minimum-start counts; every result is compared operation by operation with a reference model (which packet objects are buffered, which were returned, acceptable playout heads); the ReceiverInterceptor read path is checked for byte-exact, consecutive emission; runs that never finish are caught by a watchdog and reported as hangs.",
+         "Trusted: the reference model (it accepts either behaviour where the statement is silent: head after Clear / after PopAtSequence). The JitterBuffer API is driven from one goroutine (its own mutex serialises it; concurrent use is covered by C10). Sampling, not proof.", "DESIGN.md §5 C18"),
 }
 NA = {
  "C20": "pure single-threaded functions of their inputs (sequence unwrapping, NTP conversion): no schedule, clock, fault, I/O or second party for a simulator to control; deciding them is input enumeration/property-based testing, a different technique (they run as real code inside the C05/C07/C08/C09/C19 scenarios).",
